@@ -16,13 +16,15 @@ ID = 'C13'
 LEVEL = 'exploration'
 
 REGS = ['a', 'b', 'sp']
-LABELS = {'lbl': 9, 'foo': 7}
+LABELS = {'lbl': 9, 'foo': 7, 'FOO': 11}
 
 # ---- operand texts and their categories -----------------------------------------------------------
 # category: (form, register or None, value or None)
 TEXTS = {
     'a': ('reg', 'a', None), 'A': ('reg', 'a', None), 'b': ('reg', 'b', None), 'sp': ('reg', 'sp', None),
-    '5': ('num', None, 5), 'lbl': ('num', None, 9), 'foo': ('key', None, 7), '3': ('num', None, 3),
+    '5': ('num', None, 5), 'lbl': ('num', None, 9),
+    'FOO': ('num', None, 11),       # a constant whose name is an enumeration key in another letter case: not the key (written before it)
+    'foo': ('key', None, 7), '3': ('num', None, 3),
     '[5]': ('ind_num', None, 5), '[lbl]': ('ind_num', None, 9), '[[5]]': ('def_num', None, 5),
     '[a]': ('ind_reg', 'a', 0), '[a+1]': ('ind_reg', 'a', 1), '[b]': ('ind_reg', 'b', 0),
     'a+1': ('idx_reg', 'a', 1), '{5}': ('curly', None, 5),
@@ -260,8 +262,15 @@ def run_group(acc, group, texts_list, upper=False):
         case = Case(isa, '\n'.join(header + ok_lines) + '\n')
         out = acc.run(case)
         if not (out.status == 'OK' and out.image == bytes(ok_bytes)):
+            before = acc.nviol
             for stmt, data, clause, nt in pending:
                 single(acc, isa, header, stmt, data)
+            if acc.nviol == before:
+                # every statement is encoded as expected when assembled alone, but not in sequence: the encoding of a
+                # statement depends on the statements before it, not only on the definition
+                spec = {'expect': 'OK', 'image_hex': bytes(ok_bytes).hex(), 'statement': 'the whole sequence'}
+                acc.violation([case], spec, 'statements encoded as expected one by one are encoded differently in sequence: '
+                              + str(judge_expect(spec, [out])), [out])
         for stmt, data, clause, nt in pending:
             acc.judge(clause=clause, nontrivial_distinct=nt)
         acc.sample({'statement': pending[0][0], 'expected': pending[0][1].hex(), 'instruction': instructions[group[0][0]]})
